@@ -143,6 +143,11 @@ func genC12(r *kernel.Rand) *kernel.Scenario {
 		}
 		sc.Steps = append(sc.Steps, st)
 	}
+	if c["virtual"] > 0 && r.Bool(0.4) {
+		// the honest virtual channels are proposed by B: the adversary A is
+		// their participant 1
+		c["virtual_by_b"] = 1
+	}
 	return sc
 }
 
@@ -220,7 +225,7 @@ func execC12(tt *testing.T, sc *kernel.Scenario, trace bool) *kernel.Result {
 			}
 		}
 		for k := int64(0); k < sc.Cfg("virtual", 0); k++ {
-			if v, err := t.openVirtual(int(k), 20+3*k, 30-2*k); err == nil && a.virt == nil {
+			if v, err := t.openVirtualBy(int(k), 20+3*k, 30-2*k, sc.Cfg("virtual_by_b", 0) == 1); err == nil && a.virt == nil {
 				a.virt = v
 			}
 		}
@@ -654,7 +659,9 @@ func (a *c12adv) build(kind string, r *kernel.Rand, from map[wallet.BackendID]wi
 			return nil
 		}
 		st.Version++
-		return &client.ChannelUpdateMsg{ChannelUpdate: client.ChannelUpdate{State: st, ActorIdx: 0}, Sig: signA(st)}
+		// (sent to the hub, which holds a copy of the virtual channel: the actor
+		// is A's index in the virtual channel)
+		return &client.ChannelUpdateMsg{ChannelUpdate: client.ChannelUpdate{State: st, ActorIdx: a.virt.a.Idx()}, Sig: signA(st)}
 	case "sprop:funding-of":
 		// second half of sprop:abandoned-then-funded: the parent update that funds sub-channel a.abandoned
 		al := alloc1(2, nA)
